@@ -13,6 +13,7 @@ import Frost.Proofs.Honest
 import Frost.Proofs.NafValue
 import Mathlib.Data.ZMod.Basic
 import Mathlib.Algebra.Field.ZMod
+import Frost.Proofs.LeSoundRef
 
 set_option linter.unusedSectionVars false
 
@@ -111,6 +112,21 @@ example : ([1, 2] : List ℚ).Nodup ∧ ([3, 4] : List ℚ).length ≤ ([1, 2] :
     returns `Σ sᵢ • Pᵢ`. -/
 theorem msm_sound (le : F → Bytes) (hle : LeSound le) : MsmSound (E := E) le :=
   msmSound_of_leSound le hle
+
+/-- **The encoding law holds for the encoder the reference suites run**: over `ZMod q`, for every
+    prime `q ≤ 256^len` (the five real scalar fields with 32 / 57 bytes among them),
+    `fun s => natToLE s.val len` satisfies `LeSound`; so on those fields `MsmSound` — and with it
+    the signing, batch and group-commitment theorems — has no hypothesis left about the
+    multiscalar code. -/
+theorem leSound_ref (q len : Nat) [Fact q.Prime] (hq : q ≤ 256 ^ len) :
+    LeSound (F := ZMod q) (fun s => Frost.Ref.natToLE s.val len) :=
+  leSound_natToLE q len hq
+
+/-- `MsmSound` for the reference encoder, unconditionally -/
+theorem msm_sound_ref (q len : Nat) [Fact q.Prime] (hq : q ≤ 256 ^ len)
+    {E' : Type} [AddCommGroup E'] [Module (ZMod q) E'] [DecidableEq E'] :
+    MsmSound (F := ZMod q) (E := E') (fun s => Frost.Ref.natToLE s.val len) :=
+  msmSound_of_leSound _ (leSound_natToLE q len hq)
 
 /-- the NAF digits of every byte string reassemble the number it denotes, are odd, lie in
     (-16, 16) and sit at distinct positions below the NAF length -/
